@@ -20,6 +20,8 @@ pub struct TraitCodegen<'s> {
     pub trait_indirection: TraitIndirection,
     pub trait_dependency_mode: &'s TraitDependencyMode<'s, 's>,
     pub sub_attributes: &'s [SubAttribute<'s>],
+    /// `unsafe trait` (entraited traits only)
+    pub trait_unsafety: Option<syn::token::Unsafe>,
 }
 
 impl TraitCodegen<'_> {
@@ -83,6 +85,7 @@ impl TraitCodegen<'_> {
         });
 
         let params = trait_generics.trait_params();
+        let trait_unsafety = &self.trait_unsafety;
         let where_clause = trait_generics.trait_where_clause();
 
         let trait_sub_attributes = self.sub_attributes.iter().filter(|attr| {
@@ -100,7 +103,7 @@ impl TraitCodegen<'_> {
             #opt_entrait_for_trait_attr
             #opt_mockall_automock_attr
             #(#trait_sub_attributes)*
-            #trait_visibility trait #trait_ident #params #supertraits #where_clause {
+            #trait_visibility #trait_unsafety trait #trait_ident #params #supertraits #where_clause {
                 #(#fn_defs)*
             }
         })
